@@ -10,7 +10,7 @@ An undischarged (function, array) pair is
     keeps it in range but that the domain cannot express."""
 import json
 import os
-from nk.facts import kids, strip, const, show
+from nk.facts import kids, strip, const, show, ckey
 from nk.interval import Analyzer, FnIntervals
 from nk.report import Ob, RuleResult, DISCHARGED, VIOLATED, OBSERVATION
 from nk.build import AnalysisBroken
@@ -261,6 +261,113 @@ def ptr_into_array(prog, scope, an=None):
     an = an or Analyzer(prog)
     obs = []
     nfn = 0
+
+    def into_array(fn, e):
+        """(array node, offset node or None for element 0, bound) when e is `arr + off`, `&arr[off]` or `arr` itself."""
+        x = e
+        while x is not None and x['k'] in ('ImplicitCastExpr', 'ParenExpr', 'CStyleCastExpr', 'CXXReinterpretCastExpr', 'CXXStaticCastExpr'):
+            if x['k'] in ('CStyleCastExpr', 'CXXReinterpretCastExpr') and x.get('ck') in ('BitCast',):
+                return None
+            x = kids(x)[0] if kids(x) else None
+        if x is None:
+            return None
+        arr = off = None
+        if x['k'] == 'BinaryOperator' and x.get('op') == '+':
+            a = strip(kids(x)[0], casts=True)
+            if '[' in (fn.type(a) or '') and a['k'] in ('MemberExpr', 'DeclRefExpr'):
+                arr, off = a, kids(x)[1]
+        elif x['k'] == 'UnaryOperator' and x.get('op') == '&':
+            a = strip(kids(x)[0])
+            if a['k'] == 'ArraySubscriptExpr' and 'bound' in a:
+                arr, off = strip(kids(a)[0], casts=True), kids(a)[1]
+        elif x['k'] in ('MemberExpr', 'DeclRefExpr') and '[' in (fn.type(x) or '') and '*' not in (fn.type(x) or ''):
+            arr, off = x, None
+        if arr is None:
+            return None
+        try:
+            B = int((fn.type(arr) or '').split('[')[1].split(']')[0])
+        except (IndexError, ValueError):
+            return None
+        return arr, off, B
+
+    # helpers of the scope that hand out a pointer into an array: every return is `arr + off` / `&arr[off]` / `arr`
+    ret_ptr = {}
+    for fn in prog.functions(scope):
+        if not fn.blocks or '*' not in (fn.ret_type() or ''):
+            continue
+        forms = []
+        good = True
+        for n in fn.nodes.values():
+            if n['k'] == 'ReturnStmt' and kids(n):
+                if strip(kids(n)[0], casts=True)['k'] in ('CXXNullPtrLiteralExpr', 'GNUNullExpr') or const(kids(n)[0]) == 0:
+                    continue
+                ia = into_array(fn, kids(n)[0])
+                if ia is None:
+                    good = False
+                    break
+                arr, off, B = ia
+                o_iv = (0, 0) if off is None else an._fa_cache(fn).eval_at(off, n)
+                forms.append((show(arr), show(off) if off is not None else '0', o_iv, B, n))
+        if good and forms:
+            ret_ptr[fn.key] = (fn, forms)
+
+    def check_forms(fn, n, name, forms, k, fa):
+        k_iv = (0, 0) if k is None else fa.eval_own(k)
+        for (atxt, otxt, o_iv, B, where) in forms:
+            lo = None if o_iv[0] is None or k_iv[0] is None else o_iv[0] + k_iv[0]
+            hi = None if o_iv[1] is None or k_iv[1] is None else o_iv[1] + k_iv[1]
+            ok = lo is not None and hi is not None and lo >= 0 and hi < B
+            if not ok and k_iv == (0, 0):
+                obs.append(Ob('R-IDX', fn.file, n['l'], fn.q, 'ptr:%s->%s' % (name, atxt[-20:]), OBSERVATION,
+                              'element the pointer was set to; offset %s not decided' % (o_iv,)))
+                continue
+            obs.append(Ob('R-IDX', fn.file, n['l'], fn.q, 'ptr:%s->%s' % (name, atxt[-20:]), DISCHARGED if ok else VIOLATED,
+                          '' if ok else '`%s` reads through a pointer that %s: offset %s plus index %s is not proven inside [0, %d): an '
+                          'element near the end of the array makes this run past it (for a 64 KiB page: a 16/32-bit value that '
+                          'straddles the page boundary)' % (show(n)[:30], name, o_iv, k_iv, B),
+                          'offset + index inside the array'))
+
+    for fn in prog.functions(scope):
+        if not fn.blocks:
+            continue
+        # pointers handed out by a helper: locals initialised from the call, and direct `helper(...)[k]`
+        hp = {}
+        for n in fn.nodes.values():
+            if n['k'] == 'DeclStmt':
+                for d, i in zip([x for x in n.get('decls', ()) if x.get('init')], kids(n)):
+                    c_ = strip(i, casts=True)
+                    if c_['k'] in ('CallExpr', 'CXXMemberCallExpr') and ckey(c_) in ret_ptr and '*' in fn.types[d['t']]:
+                        hp[d['d']] = (d['n'], ckey(c_))
+        if hp or any(ckey(c_) in ret_ptr for c_ in fn.calls()):
+            fa = an._fa_cache(fn)
+            stored = set()
+            for n in fn.nodes.values():
+                if n['k'] in ('BinaryOperator', 'CompoundAssignOperator', 'UnaryOperator') and \
+                        (n.get('op') in ('++', '--') or (n.get('op', '').endswith('=') and n['op'] not in ('==', '!=', '<=', '>='))):
+                    t_ = strip(kids(n)[0])
+                    if t_['k'] == 'DeclRefExpr':
+                        stored.add(t_.get('d'))
+            for n in sorted(fn.nodes.values(), key=lambda x: x['i']):
+                base = k = None
+                if n['k'] == 'ArraySubscriptExpr':
+                    b = strip(kids(n)[0], casts=True)
+                    if b['k'] == 'DeclRefExpr' and b.get('d') in hp and b['d'] not in stored:
+                        base, k = hp[b['d']], kids(n)[1]
+                    elif b['k'] in ('CallExpr', 'CXXMemberCallExpr') and ckey(b) in ret_ptr:
+                        base, k = ('%s(...)' % ret_ptr[ckey(b)][0].name, ckey(b)), kids(n)[1]
+                elif n['k'] == 'UnaryOperator' and n.get('op') == '*':
+                    b = strip(kids(n)[0], casts=True)
+                    if b['k'] == 'DeclRefExpr' and b.get('d') in hp and b['d'] not in stored:
+                        base, k = hp[b['d']], None
+                    elif b['k'] == 'BinaryOperator' and b.get('op') == '+':
+                        bb = strip(kids(b)[0], casts=True)
+                        if bb['k'] == 'DeclRefExpr' and bb.get('d') in hp and bb['d'] not in stored:
+                            base, k = hp[bb['d']], kids(b)[1]
+                if base is None:
+                    continue
+                hf, forms = ret_ptr[base[1]]
+                check_forms(fn, n, '%s = %s() (which returns %s)' % (base[0], hf.name, ' or '.join(
+                    '%s + %s' % (f_[0], f_[1]) for f_ in forms)), forms, k, fa)
     for fn in prog.functions(scope):
         if not fn.blocks:
             continue
